@@ -36,6 +36,8 @@ ENGINES = [
      "kind_free_text": "structural obligations on the real expansion AST (vx) and finite catalogues decided by rustc"},
     {"name": "layer-N", "path": "lib/layer_n.py", "serves_properties": ["C12", "C13", "C14"],
      "kind_free_text": "bounded stand-in: designed catalogue of declarations with the verdict (reject/accept) the property demands, decided by the real macro + rustc"},
+    {"name": "layer-M", "path": "lib/layer_m.py", "serves_properties": ["C02"],
+     "kind_free_text": "the native oracle driver executed under Miri for 8 small enums: concrete witnesses for undefined behaviour without behavioural symptom (uninitialised reads, invalid enum values); bounded"},
     {"name": "layer-K", "path": "lib/layer_k.py", "serves_properties": ["C01", "C02", "C03", "C05", "C06", "C07"],
      "kind_free_text": "Kani on the unmodified expansion of small corpus enums: full input domain per enum, loops fully unwound, built-in UB checks (invalid enum value, OOB, overflow)"},
     {"name": "layer-R", "path": "lib/layer_r.py", "serves_properties": ["C06", "C07", "C09", "C10"],
@@ -72,9 +74,9 @@ PROPS = {
     "C02": {
         "level": "proof",
         "claim": 'every unsafe site of the generated code (transmute, unwrap_unchecked, assume_init) and every index/arithmetic step is a discharged Verus precondition for an arbitrary enum; an unsafe block without a verified body makes the check undecided',
-        "layers": ["T", "K", "I", "U"],
+        "layers": ["T", "K", "M", "I", "U"],
         "explanation": "C02 is the set of preconditions generated while proving the other properties: every transmute (rule R1: `requires is_variant`), every unwrap_unchecked (`requires is_some`), every MaybeUninit::assume_init (`requires initialised`, with write modelled by its vstd ghost state), every index/slice bound and every +1/-1/len arithmetic step in the real generated bodies is a Verus obligation, for an arbitrary enum of each shape and repr; the next_and_back iterator's representation invariant carries the argument over any history. Guard: every function with an unsafe block in every corpus expansion must be token-identical to a verified body. Panics and invalid values are also looked for natively on corpus instances (bounded).",
-        "assumptions": ["uninitialised reads are decided by layer T only (Kani's uninit instrumentation ICEs on this code)"],
+        "assumptions": ["uninitialised reads: decided by layer T for an arbitrary enum; witnessed concretely only on the Miri corpus (Kani's uninit instrumentation ICEs on this code)"],
     },
     "C06": {
         "level": "proof",
@@ -243,6 +245,11 @@ def collect(pid, tier, seed):
     if "N" in p["layers"]:
         o, m = driver.collect_N(pid, tier, seed)
         m["_layer"] = "N (bounded catalogue of declarations with demanded verdicts, rustc)"
+        obs += o
+        metas.append(m)
+    if "M" in p["layers"]:
+        o, m = driver.collect_I(pid, tier, seed, source="M")
+        m["_layer"] = "M (the native oracle driver under Miri, small enums, bounded)"
         obs += o
         metas.append(m)
     if "K" in p["layers"]:
